@@ -257,6 +257,10 @@ func (w *world) mkSpend(m *model.Ledger, fat bool) (model.Txn, bool) {
 	nOut := 1 + t.Pick("n-out", 5, 4, 2, 1)
 	if fat {
 		nOut = 100 + t.Int("fat-outs", 500)
+		if w.oversize {
+			// beyond the largest transaction size limit in use (32768 / 65536 bytes; an output takes 37 bytes)
+			nOut = 900 + t.Int("oversize-outs", 1000)
+		}
 	}
 	if uint64(nOut) > coins {
 		nOut = int(coins)
